@@ -50,10 +50,13 @@ CLAIMED = {
     "C19": dict(ref="DESIGN.md §3 C19", note=NOTE + "; partial: the filter callback only; fastwalk and the file system are outside",
                 text="The walker callback, lifted verbatim from readFiles, is decided for every path inside the bound, file or directory, under all option "
                      "combinations and a skip list: pruned exactly when documented, listed with the documented shape. Traversal and symlinks are NOT claimed."),
+    "C09": dict(ref="DESIGN.md §3 C09", note=NOTE + "; partial: leaf helpers only; the doAction dispatcher is outside",
+                text="Cursor movement (vset/vmove with --cycle and layout direction), the multi-select primitives under every operation sequence up to the bound, and "
+                     "delete-char are decided against the documented rules. The readline-style editing and select-all logic in the action dispatcher is NOT claimed."),
 }
 PENDING = "check not built yet in this session (planned, see DESIGN.md §3)"
 NA = {
-       "C09": PENDING,
+       
        
     "C14": "terminal modes, child processes, signals and the goroutine/channel render loop are OS effects and schedules, not a bounded computation the SSA→SMT encoder can make symbolic (DESIGN.md §5)",
     "C15": "relation between the whole Terminal state and the byte stream written through tui.Window; thousands of lines of drawing code on uniseg tables with no leaf whose correctness implies the property (DESIGN.md §5)",
